@@ -4,7 +4,44 @@ from __future__ import annotations
 import itertools
 
 from ..oracles import Trace, V
-from ..world import make  # noqa: F401
+from ..world import HBus, World, X as _X
+
+
+class NoLoopWorld(World):
+    """dispatch() called from plain synchronous code with no running event loop: it must raise, not drop the event silently"""
+
+    def run(self):
+        from asyncio import events
+        import warnings
+        outcome = {}
+        # the engine's loop exists but is NOT running here: get_running_loop() fails exactly as in plain sync code
+        with warnings.catch_warnings():
+            warnings.simplefilter('ignore')
+            for variant in ('fresh_bus', 'bus_used_before'):
+                bus = HBus(name='N' + variant[0].upper(), max_history_size=self.scn['buses']['A'].get('hist', 50))
+                self.keep.append(bus)
+                if variant == 'bus_used_before':
+                    async def warm():
+                        e0 = bus.dispatch(_X(name='warm'))
+                        await e0
+                        await bus.stop()
+                    self.loop.run_until_complete(warm())
+                    events._set_running_loop(None)
+                e = _X(name='x')
+                try:
+                    r = bus.dispatch(e)
+                    outcome[variant] = ('returned', r is e, e.event_id in bus.event_history, list(e.event_path), bus.event_queue.qsize() if bus.event_queue else None)
+                except RuntimeError as ex:
+                    outcome[variant] = ('raised', 'RuntimeError', e.event_id in bus.event_history, list(e.event_path), None)
+                except BaseException as ex:  # noqa: BLE001
+                    outcome[variant] = ('raised', type(ex).__name__, e.event_id in bus.event_history, list(e.event_path), None)
+        self.extra['noloop'] = outcome
+        self.rec('noloop', tuple(sorted((k, v[0], v[1]) for k, v in outcome.items())))
+        return ('done', None)
+
+
+def make(spec, loop):
+    return NoLoopWorld(spec, loop) if spec.get('mode') == 'noloop' else World(spec, loop)
 
 LEVEL = 'model_checking'
 RULE = ('bursts of K in {49,50,51,99,100,120} dispatches issued in one synchronous stretch from main, from inside an async handler and from inside a sync handler; '
@@ -41,6 +78,9 @@ def families(tier):
         out.append(dict(prop='C14', family='c14.burst.' + ('in_handler' if src != 'main' else 'main'), id=f'c14/K{K}-h{hist}-{src}-b{int(backlog)}-r{int(reoffer)}', cfg=cfg,
                         params=dict(K=K, hist=hist, src=src, reoffer=reoffer),
                         scn=dict(buses={'A': dict(hist=hist)}, order=['A'], handlers=hs, main=main, actors=[], forwards=[], settle=3.0, no_watch=True)))
+    for hist in (50, None, 5):
+        out.append(dict(prop='C14', family='c14.no_running_loop', id=f'c14/noloop-h{hist}', cfg=dict(bound=0, cap=2), mode='noloop', params=dict(K=0, hist=hist, src='sync', reoffer=False),
+                        scn=dict(buses={'A': dict(hist=hist)}, order=['A'], handlers=[], main=[], actors=[], forwards=[])))
     # a dispatch rejected by bus B must not leave B in the event's path: later the same object reaches B through forwarding from A and must be processed there
     for hist, fill in itertools.product((5, 50), ('main',)):
         hs = [dict(bus='B', pat='X', name='hxB', prog=[('ret', 1)], kind='sync'), dict(bus='B', pat='Y', name='hyB', prog=[('pause',)]),
@@ -64,11 +104,25 @@ def families(tier):
 
 
 def trigger(spec, res):
+    if spec.get('mode') == 'noloop':
+        return True
     n_rej = sum(1 for r in res['log'] if r[2] == 'dispatch' and r[6].startswith('raised'))
     return n_rej > 0 or spec['params']['K'] >= 50
 
 
 def oracle(spec, res):
+    if spec.get('mode') == 'noloop':
+        out = []
+        for variant, o in res['extra'].get('noloop', {}).items():
+            if o[0] == 'returned':
+                out.append(V('dispatch_without_running_loop_did_not_raise', f'{variant}: dispatch() returned (same object: {o[1]}), in history: {o[2]}, queued: {o[4]}'))
+            elif o[1] != 'RuntimeError':
+                out.append(V('dispatch_without_running_loop_raised_unexpected', f'{variant}: {o[1]}'))
+            if o[2] or o[3]:
+                out.append(V('rejected_dispatch_left_a_trace', f'{variant}: in history {o[2]}, event_path {o[3]}'))
+        if not res['extra'].get('noloop'):
+            out.append(V('harness_no_result', 'noloop world produced nothing'))
+        return out
     tr = Trace(res)
     out = []
     v = res['verdict'][0]
